@@ -266,7 +266,9 @@ def run(ctx, only=None):
                     small = E.CFG_COUNT[name] <= 2000
                     runs = [((i + off) % E.N_VARIANTS, False), ((i + off) % E.N_VARIANTS, True)]
                     if small:
-                        runs += [((i + off + 1) % E.N_VARIANTS, False), ((i + off + 2) % E.N_VARIANTS, True)]
+                        runs += [((i + off + 1) % E.N_VARIANTS, False)]
+                        if E.CFG_COUNT[name] <= 500:
+                            runs += [((i + off + 2) % E.N_VARIANTS, True)]
                 else:
                     v = int(rng.integers(E.N_VARIANTS))
                     runs = [(v, False)] + ([(v, True)] if i % 2 == 0 else [])
@@ -361,8 +363,8 @@ DIGIT_NAMES = {
     "generator": ["generator", "pos", "nugget", "options"],
     "array_fn": ["function", "field", "numeric_args"],
 }
-QUICK_BUDGET = {"vario_estimate": 3000, "krige_call": 500, "srf_call": 300, "krige_condition": 200, "condsrf_call": 200,
-                "field_call": 300, "fit_variogram": 60, "normalizer": 250, "transform": 500}
+QUICK_BUDGET = {"vario_estimate": 3000, "krige_call": 400, "srf_call": 300, "krige_condition": 200, "condsrf_call": 200,
+                "field_call": 300, "fit_variogram": 60, "normalizer": 200, "transform": 360}
 N_VARIANTS = 3
 CFG_COUNT = {k: int(np.prod(v)) for k, v in DIMS.items()}
 
